@@ -353,6 +353,12 @@ func genKv(r *rand.Rand, tier string) kvInput {
 			Views: []ViewDef{{Name: "v0", Map: perm[0]}, {Name: "v1", Map: perm[1]}, {Name: "v2", Map: perm[2]}}, Clock: next()})
 	}
 	defer func() { stringBodies = false }()
+	if stringBodies {
+		sp3 := r.Perm(len(sBodies))
+		for j, key := range kvKeys {
+			in.Ops = append(in.Ops, Step{Kind: "kv", Coll: viewColl, Key: key, Handle: 0, Op: &KOp{Kind: "Set", Val: sp(sBodies[sp3[j]])}, Clock: next()})
+		}
+	}
 	for i := 0; i < n; i++ {
 		if viewy && r.Intn(4) == 0 {
 			vn := r.Intn(3)
@@ -421,8 +427,13 @@ func genKv(r *rand.Rand, tier string) kvInput {
 			in.Ops = append(in.Ops, st)
 		default:
 			cn := pick(r, live)
+			key := pick(r, hot)
+			if viewy && r.Intn(3) > 0 {
+				// a case about views writes mostly to the collection of its design document, to all of the keys
+				cn, key = viewColl, pick(r, kvKeys)
+			}
 			h := r.Intn(in.Handles)
-			st := Step{Kind: "kv", Coll: cn, Key: pick(r, hot), Handle: h, Op: genKOp(r), Clock: next()}
+			st := Step{Kind: "kv", Coll: cn, Key: key, Handle: h, Op: genKOp(r), Clock: next()}
 			if windowed(st.Op.Kind) && r.Intn(3) == 0 {
 				// another call on the same key inside this call's read-to-write window
 				if st.Op.Kind == "WriteUpdateWithXattrs" {
